@@ -6,8 +6,8 @@ Import ListNotations.
 Local Open Scope string_scope.
 
 (* ---------- the instance ---------- *)
-Definition find_M := run_find_M unhandled base_options compilers source_extensions.
-Definition find_S := run_find_S base_options compilers source_extensions.
+Definition find_M := run_find_M unhandled base_options compilers source_extensions optional_value flag_groups.
+Definition find_S := run_find_S base_options compilers source_extensions optional_value.
 Definition closing_M (o : run_out) : list string * list nat := closing meta_warnings (as_lrecs (all_records o)).
 
 (* ---------- decoding ---------- *)
@@ -74,6 +74,7 @@ Definition enc_sev (s : sev) : data :=
   | SUnknownDirective f l c sp => DList [DStr "unknown-directive"; DStr (rpath f); of_nat l; of_nat c; DStr sp]
   | SMissingInclude f l n a => DList [DStr "missing-include"; DStr (rpath f); of_nat l; DStr (rname n); of_bool a]
   | SMissingForced f n => DList [DStr "missing-forced"; DStr (rpath f); DStr (rname n)]
+  | SBadCommand e => DList [DStr "bad-command"; DStr e]
   end.
 Definition enc_M (r : res run_out) : data :=
   match r with
